@@ -714,12 +714,28 @@ def pack_named_tuple(spec: ValueSpec) -> Expression:
                 holder_class=spec.builder.cls,
                 engine=serialize_option,
             )
+    member_ctx = spec.field_ctx
+    if serialize_option in ("as_dict", "as_list"):
+        # the engine of the named tuple is not an engine of its members
+        member_ctx = spec.field_ctx.copy(
+            metadata={
+                k: v
+                for k, v in spec.field_ctx.metadata.items()
+                if k != "serialize"
+            }
+        )
     for idx, field in enumerate(fields):
+        member_type = annotations.get(field, Any)
         packer = PackerRegistry.get(
             spec.copy(
-                type=annotations.get(field, Any),
+                type=member_type,
                 expression=f"{spec.expression}[{idx}]",
                 could_be_none=True,
+                field_ctx=(
+                    spec.field_ctx
+                    if is_named_tuple(member_type)
+                    else member_ctx
+                ),
             )
         )
         packers.append(packer)
